@@ -129,7 +129,7 @@ func kindsOf(stuck []string) string {
 
 func isFault(kind string) bool {
 	switch kind {
-	case "dropPost", "loseReply", "restart", "unready", "getFail", "outOfSync", "killTail", "scaleDown", "jobBroken":
+	case "dropPost", "loseReply", "restart", "unready", "getFail", "outOfSync", "killTail", "scaleDown", "jobBroken", "postFail", "postFailAll":
 		return true
 	}
 	return false
@@ -407,6 +407,9 @@ func RunCase(c *Case, prop string, judgeHandOver bool) *Result {
 	}
 	if w.InFlight > 0 {
 		res.class("scrapes-in-flight-during-a-cycle")
+	}
+	if w.FailedPosts >= 8 {
+		res.class("eight-or-more-failed-updates-in-one-run")
 	}
 	if w.Refused > 0 {
 		res.class("scrapes-refused-by-the-proxy-without-asking-the-target")
